@@ -474,14 +474,14 @@ pub fn gen_w2(seed: u64, focus: Focus) -> W2Script {
         let k = if i == 0 {
             match focus {
                 Focus::AVec => ClientKind::AVec,
-                Focus::Vec => ClientKind::Vec(*cfg.pick(&[VT::U8, VT::U32, VT::Tr, VT::Tr, VT::Big, VT::Zt])),
+                Focus::Vec => ClientKind::Vec(*cfg.pick(&[VT::U8, VT::U32, VT::Tr, VT::Tr, VT::Big, VT::Zt, VT::Wide])),
                 Focus::Str => ClientKind::Str,
                 Focus::Boxes => ClientKind::Boxes,
-                Focus::Drops => ClientKind::Vec(*cfg.pick(&[VT::Tr, VT::Tr, VT::Big, VT::Zt])),
+                Focus::Drops => ClientKind::Vec(*cfg.pick(&[VT::Tr, VT::Tr, VT::Big, VT::Zt, VT::Wide])),
             }
         } else {
             match cfg.below(10) {
-                0..=3 => ClientKind::Vec(*cfg.pick(&[VT::U8, VT::U32, VT::Tr, VT::Big, VT::Zt])),
+                0..=3 => ClientKind::Vec(*cfg.pick(&[VT::U8, VT::U32, VT::Tr, VT::Big, VT::Zt, VT::Wide])),
                 4 | 5 => ClientKind::Str,
                 6 | 7 => ClientKind::Raw,
                 8 => ClientKind::AVec,
